@@ -204,7 +204,8 @@ def device_membership(ctx, rng):
     first = None
     for kind in ("bar_hole", "ring", "union"):
         dev = zoo.make_device(kind, rng, mesh=False)
-        q = far_from_boundaries([dev.film] + list(dev.holes), rng.uniform(-3.5, 3.5, size=(150, 2)))
+        inside_holes = [np.asarray(h.polygon.representative_point().coords[0]) + d_ for h in dev.holes for d_ in (np.zeros(2), np.array([0.03, -0.02]), np.array([-0.04, 0.05]))]
+        q = far_from_boundaries([dev.film] + list(dev.holes), np.concatenate([rng.uniform(-3.5, 3.5, size=(150, 2))] + ([np.array(inside_holes)] if inside_holes else [])))
         got = dev.contains_points(q)
         exp = dev.film.contains_points(q)
         for h in dev.holes:
